@@ -657,6 +657,60 @@ def r6(ctx, R):
             R.violation("C08.R6", f.short, k, loc(f, st), f"the cached entry is computed from {sorted(need)} but keyed by {sorted(knames)} only: after #undef/#define of the same name with another body, uses are still replaced by the old body")
 
 
+# ------------------------------------------------------------------ R8
+def r8(ctx, R):
+    """Macros are applied one after the other to the same line, so the body of one macro may
+    name another (object-like macros that expand to macros).  Whatever decides to skip a macro
+    for a line must therefore look at the line as it is *now*, not at a view computed before
+    the loop started."""
+    R.rule("C08.R8", "the substitution loop decides per macro on the current text of the line (earlier substitutions can introduce later macro names)", floor=1, confirmed=1)
+    f = pp_func(ctx)
+    ret = next(r for r in f.node.body if isinstance(r, ast.Return) and isinstance(r.value, ast.Tuple))
+    table = unparse(ret.value.elts[3])
+    n = 0
+    for lp in (x for x in ctx.m.walk_own(f.node) if isinstance(x, ast.For)):
+        if not (isinstance(lp.iter, ast.Call) and isinstance(lp.iter.func, ast.Attribute) and lp.iter.func.attr in ("items", "keys") and unparse(lp.iter.func.value) == table) and unparse(lp.iter) != table:
+            continue
+        loopvars = {x.id for x in ast.walk(lp.target) if isinstance(x, ast.Name)}
+        # the text that is rewritten inside the loop: target of `x = y` where y is the result of subn/sub
+        rebound = {t.id for st in ast.walk(lp) if isinstance(st, ast.Assign) for t in st.targets if isinstance(t, ast.Name)}
+        subs = [c for c in calls_in(lp) if isinstance(c.func, ast.Attribute) and c.func.attr in ("subn", "sub")]
+        texts = set()
+        for c in subs:
+            for a in c.args:
+                if isinstance(a, ast.Name) and a.id in rebound and a.id not in loopvars:
+                    texts.add(a.id)
+        if not subs or not texts:
+            continue
+        for t in (x for x in lp.body if isinstance(x, ast.If)):
+            if not (t.body and isinstance(t.body[-1], ast.Continue)):
+                continue
+            names = {x.id for x in ast.walk(t.test) if isinstance(x, ast.Name)}
+            if not (names & loopvars):
+                continue
+            n += 1
+            others = names - loopvars
+            stale = []
+            for nm in sorted(others):
+                if nm in texts:
+                    continue
+                # a local computed before the loop from the text that the loop rewrites
+                ds = [v for st_, v in defs_of(ctx, f, nm) if v is not None]
+                from_text = any(any(isinstance(x, ast.Name) and x.id in texts for x in ast.walk(v)) for v in ds)
+                updated_in_loop = any(isinstance(st_, ast.Assign) and any(isinstance(t_, ast.Name) and t_.id == nm for t_ in st_.targets) for st_ in ast.walk(lp))
+                if from_text and not updated_in_loop:
+                    stale.append(nm)
+            k = key(f, t)[:80]
+            if stale:
+                R.violation("C08.R8", f.short, k, loc(f, t), f"the skip test reads `{stale[0]}`, computed from `{sorted(texts)[0]}` before the loop, while the loop rewrites `{sorted(texts)[0]}`: a macro whose name only appears after an earlier macro was expanded (`#define A B x` / `#define B integer`) is skipped and stays unexpanded")
+            elif others - texts:
+                R.undecided("C08.R8", f.short, k, loc(f, t), f"skip test reads {sorted(others - texts)}")
+            else:
+                R.ok("C08.R8", f.short, k, loc(f, t), f"skip test reads the current `{sorted(texts)[0]}`")
+    if n == 0:
+        R.undecided("C08.R8", f.short, "substitution loop", loc(f, f.node), "no per-macro skip test found in the substitution loop")
+
+
 # ------------------------------------------------------------------ R7
 def _arm_paths(stmts, stack, group, grp_test):
     """set of (stack delta, group pops, group test seen, open) over all paths through stmts"""
@@ -763,3 +817,4 @@ def run(ctx, R):
     r4(ctx, R)
     r5(ctx, R)
     r6(ctx, R)
+    r8(ctx, R)
